@@ -97,4 +97,13 @@ def firstDiff (model impl : Args) : Option (String × String × String) :=
     | some (k, v) => some (k, "<missing>", v)
     | none => none
 
+/-- Every differing field as `(field, model, impl)`, in the order of `firstDiff` (model fields first, then
+fields only the implementation shows). -/
+def allDiffs (model impl : Args) : List (String × String × String) :=
+  (model.filterMap fun (k, v) =>
+    match impl.get k with
+    | some v' => if v == v' then none else some (k, v, v')
+    | none => some (k, v, "<missing>")) ++
+  (impl.filterMap fun (k, v) => if (model.get k).isNone then some (k, "<missing>", v) else none)
+
 end CwPlus.Wire
